@@ -96,6 +96,7 @@ where
 enum Phase<F> {
     Calling(#[pin] F),
     Sleeping(#[pin] tokio::time::Sleep),
+    Connecting,
     Failed,
 }
 
@@ -195,8 +196,7 @@ where
                             // Sleep complete - check retry_on_reconnect flag
                             if this.config.retry_on_reconnect {
                                 // Retry the original request (reconnection happens via clone)
-                                let call_future = this.inner.call(this.request.clone());
-                                this.phase.set(Phase::Calling(call_future));
+                                this.phase.set(Phase::Connecting);
                             } else {
                                 // Don't retry - return error to caller
                                 // The backoff succeeded, so mark connected for next request
@@ -207,6 +207,21 @@ where
                                     error,
                                 )));
                             }
+                        }
+                        Poll::Pending => return Poll::Pending,
+                    }
+                }
+                PhaseProj::Connecting => {
+                    // The retried call goes to the clone made when the request started:
+                    // observe its readiness first (Tower readiness contract).
+                    match this.inner.poll_ready(cx) {
+                        Poll::Ready(Ok(())) => {
+                            let call_future = this.inner.call(this.request.clone());
+                            this.phase.set(Phase::Calling(call_future));
+                        }
+                        Poll::Ready(Err(error)) => {
+                            this.phase.set(Phase::Failed);
+                            return Poll::Ready(Err(ReconnectError::ServiceError(error)));
                         }
                         Poll::Pending => return Poll::Pending,
                     }
